@@ -37,6 +37,7 @@ var (
 	_ TimeValidityWindow[*emapChunkCertificate] = (validitywindow.Interface[*emapChunkCertificate])(nil)
 
 	ErrEmptyChunk                          = errors.New("empty chunk")
+	ErrUnexpectedChunk                     = errors.New("unexpected chunk")
 	ErrNoAvailableChunkCerts               = errors.New("no available chunk certs")
 	ErrTimestampNotMonotonicallyIncreasing = errors.New("block timestamp must be greater than parent timestamp")
 	ErrEmptyBlock                          = errors.New("block must reference chunks")
@@ -358,6 +359,11 @@ func (n *Node[T]) Accept(ctx context.Context, block Block) (ExecutedBlock[T], er
 						return
 					}
 
+					if response.id != chunkCert.ChunkID {
+						result <- fmt.Errorf("%w: received chunk %s instead of %s", ErrUnexpectedChunk, response.id, chunkCert.ChunkID)
+						return
+					}
+
 					if _, err := n.storage.VerifyRemoteChunk(response); err != nil {
 						result <- err
 						return
@@ -388,6 +394,11 @@ func (n *Node[T]) Accept(ctx context.Context, block Block) (ExecutedBlock[T], er
 					break
 				}
 			}
+			// the fetched chunk was verified and appended by onResponse
+			continue
+		}
+		if err != nil {
+			return ExecutedBlock[T]{}, fmt.Errorf("failed to get chunk referenced in block: %w", err)
 		}
 
 		chunk, err := ParseChunk[T](chunkBytes)
